@@ -45,6 +45,9 @@ def build(U, g, split_override=None, order_override=None):
     vmB = X.vm_of(vms, "LB;")
     vmB.emit(index["LB;"].methods[0], 8, "invoke", ("LA;", "m2", "()V"))
     vmB.emit(index["LB;"].methods[0], 12, "string", "s1")
+    # LB;->m1 reads a field of its own class: in a split world this is field@0 of another DEX file, the same index LA;->m1 uses
+    # for the first field it touches (pool indices are per DEX file)
+    vmB.emit(index["LB;"].methods[0], 16, "read", ("LB;", "g", "I"))
     orders = list(itertools.permutations(range(len(split))))
     order = orders[(g["order"] if order_override is None else order_override) % len(orders)]
     dx = ana.Analysis()
